@@ -323,7 +323,7 @@ def gen_prompt_case(rng):
             ops.append(["msg", rng.choice(MSGS)])
         else:
             ops.append([rng.choice(["refresh", "continue", "quit", "help"]), rng.choice([None, None] + DESCS)])
-    return dict(msg=msg, ops=ops)
+    return dict(msg=msg, ops=ops, printed=rng.random() < 0.5)
 
 
 def impl_prompt(case):
@@ -331,7 +331,12 @@ def impl_prompt(case):
     from simpleline.render.prompt import Prompt
     logging.getLogger("simpleline").disabled = True
     p = Prompt(case["msg"])
+    printed = case.get("printed")
+    if printed:
+        str(p)                       # the prompt is shown between edits (a screen that keeps its Prompt)
     for o in case["ops"]:
+        if printed:
+            str(p)
         k = o[0]
         if k == "add":
             p.add_option(o[1], o[2])
